@@ -312,6 +312,32 @@ def eval_driver(cfg, res=None):
                         "%s %s data %r: iteration %d advanced time by %r, min dt(Q_%d) = %r" % (iname, kind, idx, k, inc, k - 1, want), 0))
             break
         prev_t, prev_f = fk.time, fk
+    # the global step does not depend on requested snapshots: with a save time strictly inside the first and the third step the times visited
+    # by the iterations (observed with a frequency-1 monitor) are those of the run without save times, and the first increment is min dt(Q_0)
+    def visited(ts):
+        d, s = mk()
+        mon = {"residual": {"frequency": 1}}
+        with np.errstate(all="ignore"), core.time_limit(5.0):
+            s.solve(space.field.fdata(model, m, [x.copy() for x in data]), cfl, ts, stop={"maxit": 3, "tottime": 1e30}, monitors=mon)
+        return [float(t) for t in mon["residual"]["output"]._time]
+    try:
+        plain = visited([])
+        if len(plain) == 4 and np.all(np.isfinite(plain)):
+            inside = [plain[0] + 0.4 * (plain[1] - plain[0]), plain[2] + 0.6 * (plain[3] - plain[2])]
+            withsave = visited(inside)
+            if res is not None:
+                res.evals += 1
+                res.transitions += 2
+            d0, _ = mk()
+            with np.errstate(all="ignore"):
+                want0 = float(np.min(d0.calc_timestep(space.field.fdata(model, m, [x.copy() for x in data]), cfl)))
+            if withsave != plain:
+                out.append(("C18/driver/global-step-independent-of-save-times", "%s %s data %r: iterations visit times %r without save times, %r with save times %r inside steps 1 and 3"
+                            % (iname, kind, idx, plain, withsave, inside), 0))
+            elif not abs((plain[1] - plain[0]) - want0) <= 8 * EPS * want0:
+                out.append(("C18/driver/global-step-is-min-over-cells/monitor", "%s %s data %r: first increment %r, min dt(Q_0) = %r" % (iname, kind, idx, plain[1] - plain[0], want0), 0))
+    except core.CallTimeout:
+        out.append(("C18/driver/non-termination", "%s %s data %r: solve with maxit 3 did not return" % (iname, kind, idx), 0))
     # local step: one iteration with the directive == one real step with the array; time advances by its minimum
     d, s = mk()
     f0 = space.field.fdata(model, m, [x.copy() for x in data])
